@@ -553,9 +553,17 @@ func genProject(rng *rand.Rand) []pomFile {
 			}
 		}
 		chain = append(chain, pomFile{Path: parentPath, Pom: parent})
-		if rng.Intn(4) == 0 {
+		if rng.Intn(5) < 2 {
 			gp := genPom(rng, true, 2)
 			parent.Parent = &pParentRef{G: gp.G, A: gp.A, V: gp.V, Rel: "../gp/pom.xml"}
+			// the parent may inherit its groupId and/or version from the grandparent (the child still names them)
+			child.Parent.G, child.Parent.V = parent.G, parent.V
+			if rng.Intn(2) == 0 {
+				parent.G = ""
+			}
+			if rng.Intn(2) == 0 {
+				parent.V = ""
+			}
 			gpPath := "gp/pom.xml"
 			if parentPath == "pom.xml" {
 				parent.Parent.Rel = "gp/pom.xml"
@@ -1423,6 +1431,23 @@ func (pomEmitter) generate(rng *rand.Rand, n int) []anyCase {
 		r := simplePom(nil, "1.0", 0)
 		r.Profiles = []pProfile{{ID: "legacy", Mgmt: []pDep{{G: "org.prof", A: "managed", V: "1.4"}}}}
 		fixed("boundary", r, []mUpdate{{Name: "org.new:added", From: "", To: "2.0", Origin: "management", New: true}})
+	}
+	{ // child -> parent -> grandparent, the parent inherits groupId and version; a requirement declared in the parent
+		child := simplePom(nil, "1.0", 0)
+		child.Parent = &pParentRef{G: "g", A: "par", V: "8", Rel: "../parent/pom.xml"}
+		par := simplePom(nil, "3.0", 0)
+		par.G, par.A, par.V, par.Packaging = "", "par", "", "pom"
+		par.Deps[0].A = "in-parent"
+		par.Parent = &pParentRef{G: "g", A: "gp", V: "8", Rel: "../gp/pom.xml"}
+		gp := simplePom(nil, "2.0", 0)
+		gp.A, gp.V, gp.Packaging = "gp", "8", "pom"
+		gp.Deps[0].A = "in-gp"
+		for _, u := range []mUpdate{{Name: "org.example:in-parent", From: "3.0", To: "3.1"}, {Name: "org.example:in-gp", From: "2.0", To: "2.1"}} {
+			c := &pomCase{Stream: "boundary", Chain: []pomFile{{Path: "child/pom.xml", Pom: child}, {Path: "parent/pom.xml", Pom: par}, {Path: "gp/pom.xml", Pom: gp}},
+				Updates: []mUpdate{u}}
+			c.run(nil)
+			out = append(out, c)
+		}
 	}
 	{ // two requirements share one property, one of them is updated
 		p := simplePom([][2]string{{"v", "1.0"}}, "${v}", 0)
